@@ -273,9 +273,11 @@ theorem drain_data (F : Nat) (s : S) (buf : Bytes) : (drain F s buf).1.data = s.
   | zero => rfl
   | succ n ih =>
     unfold drain
-    dsimp only
     split
-    · rw [ih]; exact processData_data s buf
-    · exact processData_data s buf
+    · rfl
+    · dsimp only
+      split
+      · rw [ih]; exact processData_data s buf
+      · exact processData_data s buf
 
 end Abverif.Ws
